@@ -1236,7 +1236,7 @@ theorem varintLen_pos (v : Nat) : 1 ≤ varintLen v := by
 theorem varintLen_small (v : Nat) (h : v ≤ 16383) : varintLen v ≤ 2 := by
   unfold varintLen Varint.len?; split
   · simp
-  · simp [h]
+  · simp
 
 def relSerSum (l : List (Nat × Bytes)) : Nat := (l.map (fun x => relSer x.1 x.2)).sum
 def unrelSerSum (l : List Bytes) : Nat := (l.map unrelSer).sum
@@ -2071,12 +2071,12 @@ theorem slicedLoop_mono (ch id now resend : Nat) (msg : Bytes) (n start : Nat) (
     (l : List Nat) (ls : List (Option Nat)) (next : Nat) (gp : GP) :
     Mono gp (slicedLoop ch id now resend msg n start acked l (ls, next, gp)).2.2 :=
   slicedLoop_rel Mono Mono.refl (fun _ _ _ => Mono.trans) ch id now resend msg n start acked l ls next gp
-    (fun g i0 _ _ => Mono_sliceStep ch id msg n _ g)
+    (fun g _ _ _ => Mono_sliceStep ch id msg n _ g)
 
 theorem relLoop_mono (ch now resend : Nat) (un : SMap Unacked) (gp : GP) : Mono gp (relLoop ch now resend un gp).2 :=
   relLoop_rel Mono Mono.refl (fun _ _ _ => Mono.trans) ch now resend un gp
-    (fun g id m ls _ _ _ => Mono_takeSmall ch id m g)
-    (fun g id m n na nx ak ls _ => slicedLoop_mono ch id now resend m n nx ak (List.range n) ls nx g)
+    (fun g id m _ _ _ _ => Mono_takeSmall ch id m g)
+    (fun g id m n _ nx ak ls _ => slicedLoop_mono ch id now resend m n nx ak (List.range n) ls nx g)
 
 theorem Mono_finishRel (ch : Nat) (g : GP) : Mono g (finishRel ch g) := by
   refine ⟨?_, ?_, ?_⟩
@@ -2881,5 +2881,44 @@ instance (c : Conn) : Decidable c.FlushInvd := by unfold Conn.FlushInvd; infer_i
 
 theorem Conn.FlushInvd.inv {c : Conn} (h : c.FlushInvd) : c.FlushInv :=
   ⟨h.1, h.2.1.ok, h.2.2.1.ok, acksWFb_wf _ h.2.2.2.1, h.2.2.2.2.1, h.2.2.2.2.2⟩
+
+/-! ### the pending-ack part of `Conn.FlushInv` is inductive -/
+
+theorem Acks.wf_mem_nonempty : ∀ {l : List AckRange}, Acks.WF l → ∀ r ∈ l, r.1 < r.2
+  | [], _, _, h => by cases h
+  | x :: rest, hw, r, h => by
+    rw [Acks.wf_cons_iff] at hw
+    simp only [List.mem_cons] at h
+    rcases h with rfl | h
+    · exact hw.1
+    · exact Acks.wf_mem_nonempty hw.2.1 r h
+
+theorem Acks.mem_of_mem_range : ∀ {l : List AckRange} {r : AckRange} {x : Nat}, r ∈ l → r.1 ≤ x → x < r.2 → Acks.Mem x l
+  | [], _, _, h, _, _ => by cases h
+  | y :: rest, r, x, h, h1, h2 => by
+    simp only [List.mem_cons] at h
+    rcases h with rfl | h
+    · exact Or.inl ⟨h1, h2⟩
+    · exact Or.inr (Acks.mem_of_mem_range h h1 h2)
+
+theorem Acks.range_of_mem : ∀ {l : List AckRange} {x : Nat}, Acks.Mem x l → ∃ r ∈ l, x < r.2
+  | [], _, h => by cases h
+  | y :: rest, x, h => by
+    rcases h with h | h
+    · exact ⟨y, List.mem_cons_self .., h.2⟩
+    · obtain ⟨r, hr, hx⟩ := Acks.range_of_mem h
+      exact ⟨r, List.mem_cons_of_mem _ hr, hx⟩
+
+/-- recording a sequence number below `B` keeps every range end at most `B` -/
+theorem Acks.add_bound (cap seq B : Nat) (l : List AckRange) (h : Acks.WF l) (hb : ∀ r ∈ l, r.2 ≤ B) (hs : seq < B) :
+    ∀ r ∈ Acks.add cap seq l, r.2 ≤ B := by
+  intro r hr
+  have hne := Acks.wf_mem_nonempty (Acks.add_wf cap seq l h) r hr
+  have hm := Acks.mem_of_mem_range (x := r.2 - 1) hr (by omega) (by omega)
+  rcases Acks.add_mem_sub cap seq l h _ hm with h1 | h1
+  · obtain ⟨r', hr', hx⟩ := Acks.range_of_mem h1
+    have := hb r' hr'
+    omega
+  · omega
 
 end RenetVerif
